@@ -45,6 +45,7 @@ type glCtx struct {
 	inSwitch int              // depth of enclosing switch statements inside the innermost loop (a `break` there leaves the switch)
 	named   []string          // named results of the function being translated
 	selfTerm string           // when inlining an accessor of another object: the Lean term of that object
+	errOnly  bool             // translating a (T, error) function whose callers all discard T: `return a, b` is `return b`
 }
 
 type glQueue struct {
@@ -624,7 +625,7 @@ func isErrNeNil(e ast.Expr) (string, bool) {
 
 // checkCall: `X.m(args)` with m a method (of the receiver or of another record) returning only an error whose body
 // translates: returns the Lean statement `.check` / `.checkOn` for `if err := X.m(args); err != nil { return ... }`
-func (c *glCtx) checkCall(call *ast.CallExpr, tag string) (string, bool) {
+func (c *glCtx) checkCall(call *ast.CallExpr, tag string, errOnly ...bool) (string, bool) {
 	se, ok := call.Fun.(*ast.SelectorExpr)
 	if !ok {
 		return "", false
@@ -651,7 +652,17 @@ func (c *glCtx) checkCall(call *ast.CallExpr, tag string) (string, bool) {
 		}
 	}
 	key, fd := c.p.findMethod(xt, se.Sel.Name)
-	if fd == nil || fd.Body == nil || fd.Type.Results == nil || len(fd.Type.Results.List) != 1 || c.p.src(fd.Type.Results.List[0].Type) != "error" {
+	if fd == nil || fd.Body == nil || fd.Type.Results == nil {
+		return "", false
+	}
+	if len(errOnly) > 0 && errOnly[0] {
+		// `_, err := X.m()`: a (T, error) function used for its error only
+		rs := fd.Type.Results.List
+		if len(rs) != 2 || len(rs[0].Names) > 1 || len(rs[1].Names) > 1 || c.p.src(rs[1].Type) != "error" {
+			return "", false
+		}
+		key += "#err"
+	} else if len(fd.Type.Results.List) != 1 || c.p.src(fd.Type.Results.List[0].Type) != "error" {
 		return "", false
 	}
 	declT := strings.SplitN(key, ".", 2)[0]
@@ -708,8 +719,9 @@ func (c *glCtx) checkCall(call *ast.CallExpr, tag string) (string, bool) {
 
 func (c *glCtx) ifStmt(s *ast.IfStmt) string {
 	// pattern: if err := X.m(args); err != nil { return err | return fieldError("T", err, ...) | return recv.Error("T", err, ...) }
-	if as, ok := s.Init.(*ast.AssignStmt); ok && as.Tok == token.DEFINE && len(as.Lhs) == 1 && len(as.Rhs) == 1 && s.Else == nil {
-		if ev, ok := isErrNeNil(s.Cond); ok && c.p.src(as.Lhs[0]) == ev && len(s.Body.List) == 1 {
+	if as, ok := s.Init.(*ast.AssignStmt); ok && as.Tok == token.DEFINE && (len(as.Lhs) == 1 || len(as.Lhs) == 2 && c.p.src(as.Lhs[0]) == "_") && len(as.Rhs) == 1 && s.Else == nil {
+		discard := len(as.Lhs) == 2
+		if ev, ok := isErrNeNil(s.Cond); ok && c.p.src(as.Lhs[len(as.Lhs)-1]) == ev && len(s.Body.List) == 1 {
 			if rs, ok := s.Body.List[0].(*ast.ReturnStmt); ok && len(rs.Results) == 1 {
 				if ce, ok := as.Rhs[0].(*ast.CallExpr); ok {
 					tag := ""
@@ -727,7 +739,7 @@ func (c *glCtx) ifStmt(s *ast.IfStmt) string {
 					if tag != "" {
 						savedPre := c.pre
 						c.pre = nil
-						t, ok := c.checkCall(ce, tag)
+						t, ok := c.checkCall(ce, tag, discard)
 						pre := c.pre
 						c.pre = savedPre
 						if ok {
@@ -793,6 +805,9 @@ func (c *glCtx) stmt0(s ast.Stmt) string {
 	case *ast.BlockStmt:
 		return "(.block " + c.block(s.List) + ")"
 	case *ast.ReturnStmt:
+		if len(s.Results) == 2 && c.errOnly {
+			return "(.ret " + c.expr(s.Results[1]) + ")"
+		}
 		if len(s.Results) == 2 {
 			return fmt.Sprintf("(.ret (.pair %s %s))", c.expr(s.Results[0]), c.expr(s.Results[1]))
 		}
@@ -1239,14 +1254,15 @@ func (q *glQueue) translate(p *pkg, key string) {
 	if _, ok := q.done[key]; ok || q.busy[key] {
 		return
 	}
-	fd, ok := p.funcs[key]
+	errOnly := strings.HasSuffix(key, "#err")
+	fd, ok := p.funcs[strings.TrimSuffix(key, "#err")]
 	if !ok || fd.Body == nil {
 		q.done[key] = fmt.Sprintf("(.unknown %s)", leanStr(unrec("golite: no function %s", key)))
 		q.order = append(q.order, key)
 		return
 	}
 	q.busy[key] = true
-	c := &glCtx{p: p, recv: recvIdent(fd), rtype: strings.SplitN(key, ".", 2)[0], optsPar: map[string]bool{}, q: q, tmp: new(int), types: map[string]string{}}
+	c := &glCtx{p: p, recv: recvIdent(fd), rtype: strings.SplitN(key, ".", 2)[0], optsPar: map[string]bool{}, q: q, tmp: new(int), types: map[string]string{}, errOnly: errOnly}
 	if !strings.Contains(key, ".") {
 		c.recv, c.rtype = "", ""
 	}
